@@ -773,8 +773,8 @@ def run(ctx):
                        "(add_atom of ids 0,2 and of the probability-None / probability-False ids, add_and, add_or "
                        "readonly/mutable/placeholder with every child list of length 1..2 over all signed keys returned so far + "
                        "TRUE + FALSE, add_disjunct of every literal on every mutable node); quick: default options, thorough: 8 "
-                       "option vectors; ('exh3') depth 3 with single-child lists, quick: one vector chosen by the seed, thorough: 6; "
-                       "('exh3w', thorough only) one atom + 3 calls with child lists of length <=2, default options; "
+                       "option vectors; ('exh3') depth 3 with single-child lists, quick: one vector chosen by the seed, thorough: 4; "
+                       "('exh3w', thorough only) one atom + 3 calls with child lists of length <=2, default options, every 8th history; "
                        "(2) 'rand': random histories of 5..40 calls with random option vectors (max_arity 0..3), names 1..3, "
                        "add_name, per-call compact flags, identifiers with probability None/False, stratified cycles through "
                        "mutable nodes. Exhaustive sets are judged in the final state (every prefix is itself enumerated), random "
@@ -821,15 +821,16 @@ def run(ctx):
     # quick: depth 2 for the default vector, depth 3 for one other vector (rotating with the seed); thorough: all of them
     vecs = OPT_VECTORS if thorough else [OPT_VECTORS[0]]
     stream(((o, ops, False) for o in vecs for ops in exhaustive(prefix, 2, 2, True)), "exh2")
-    vecs3 = OPT_VECTORS[:6] if thorough else [OPT_VECTORS[1 + ctx.seed % (len(OPT_VECTORS) - 1)]]
+    vecs3 = OPT_VECTORS[:4] if thorough else [OPT_VECTORS[1 + ctx.seed % (len(OPT_VECTORS) - 1)]]
     stream(((o, ops, False) for o in vecs3 for ops in exhaustive(prefix, 3, 1, False)), "exh3")
     if thorough:
         # one atom, three further calls with child lists of length <= 2, default options
+        # (every 8th history of the 1.68 M, offset by the seed: the parent process is the bottleneck)
         for o in OPT_VECTORS[:1]:
-            stream(((o, ops, False) for ops in exhaustive([("A", 0, None)], 3, 2, False)), "exh3w")
+            stream(((o, ops, False) for k, ops in enumerate(exhaustive([("A", 0, None)], 3, 2, False)) if (k + ctx.seed) % 8 == 0), "exh3w")
 
     def rand():
-        for _ in range(ctx.n(2000, 40000)):
+        for _ in range(ctx.n(2000, 25000)):
             o = random_opts(ctx.rng)
             yield (o, random_history(ctx.rng, ctx.rng.choice([5, 8, 12, 20, 30, 40])), True)
     stream(rand(), "rand")
